@@ -58,7 +58,11 @@ def consumer_sweep(rnd):
                ("inl", A("a"), [0, 1, 7], False, G.BOOL), ("inl", A("a"), [0, 1, 7], True, G.BOOL),
                ("between", A("a"), K(0), K(2), False, G.BOOL), ("between", A("b"), A("a"), K(3), True, G.BOOL),
                B("=", ("bin", "+", A("a"), A("b"), G.INT), K(3)), B(">", ("bin", "/", A("a"), A("b"), G.INT), K(0)),
-               B("=", ("case", B(">", A("a"), K(1)), A("b"), A("a"), G.INT), K(1))]
+               B("=", ("case", B(">", A("a"), K(1)), A("b"), A("a"), G.INT), K(1)),
+               # numeric -> boolean casts: the flag is computed from a number whose slot under a NULL is arbitrary
+               ("castb", A("a"), G.BOOL), ("castb", ("bin", "+", A("a"), K(1), G.INT), G.BOOL),
+               ("castb", ("bin", "-", K(1), A("b"), G.INT), G.BOOL), ("castb", ("bin", "*", A("a"), A("b"), G.INT), G.BOOL),
+               ("castb", ("case", B(">", A("a"), K(1)), A("b"), K(5), G.INT), G.BOOL)]
     T = B(">", A("b"), K(100))        # false or NULL
     U = B("<", A("b"), K(100))        # true or NULL
     out = []
